@@ -283,6 +283,9 @@ def run_loop(eng, s, fr, anchor, spec, idxname, body_guard, bind, n, after_exit)
         if eng.st.yielded is not None and has_yield(s.body):
             eng.st.yielded = eng.fresh(eng.st.yielded.ty, 'yielded')
         eng.havoc_heap_for_loop(s, fr, spec)
+        # a heap frame declared in the sidecar is CHECKED: at the end of an iteration every field outside it is unchanged
+        frame_decl = spec.extra.get('heap_modifies')
+        head_heap = dict(eng.st.heap) if frame_decl is not None else None
         idx = eng.fresh(INT, idxname)
         fr.ghost[idxname] = idx
         eng.assume(idx.t >= 0)
@@ -322,6 +325,14 @@ def run_loop(eng, s, fr, anchor, spec, idxname, body_guard, bind, n, after_exit)
                 eng.prove('unexpected-exception.RuntimeError:dict-changed-size-during-iteration#%s' % anchor,
                           idx.t + 1 >= n, kind='unexpected-exception')
             fr.ghost[idxname] = V(INT, idx.t + 1)
+            if head_heap is not None:
+                for key_ in sorted(eng.st.heap):
+                    cname, f_ = key_
+                    if ('%s.%s' % (cname, f_)) in frame_decl or (cname + '.*') in frame_decl or key_ not in head_heap:
+                        continue
+                    if eng.st.heap[key_] is not head_heap[key_] and not eng.st.heap[key_].eq(head_heap[key_]):
+                        eng.prove('inv.keep#%s.frame:%s.%s-unchanged' % (anchor, cname, f_),
+                                  eng.st.heap[key_] == head_heap[key_], kind='inv.keep')
             for k, inv in enumerate(spec.inv):
                 eng.prove('inv.keep#%s.%d' % (anchor, k + 1), eng.pure_bool(inv, fr), kind='inv.keep')
             if d0 is not None:
